@@ -291,12 +291,15 @@ func checkWriterLog(evs []wev, ops map[string]opInfo, accepted map[string]bool, 
 		boundary bool
 		forced   bool
 		stepIdx  int
+		max      int
 	}
 	var removals []removal
 	stepIdx := 0
 	readds := map[string]int{}
 	for _, e := range evs {
 		switch e.Kind {
+		case "upgrade":
+			maxCount = e.N // the current protocol version changed: its MaxOperationCount governs every later cut
 		case "step.call":
 			inStep, forced = true, e.Force
 			stepIdx++
@@ -351,7 +354,7 @@ func checkWriterLog(evs []wev, ops map[string]opInfo, accepted map[string]bool, 
 			if sequential && len(model) > 0 && n > 0 && ops[model[0]].ver != ops[e.IDs[0]].ver {
 				boundary = true
 			}
-			removals = append(removals, removal{n, boundary, forced && inStep, stepIdx})
+			removals = append(removals, removal{n, boundary, forced && inStep, stepIdx, maxCount})
 			if sequential && n < maxCount && !boundary && !(forced && inStep) {
 				fail("E5: undersized batch %v (max %d) cut by a monitor tick with no protocol-version boundary behind it", e.IDs, maxCount)
 			}
@@ -418,7 +421,7 @@ func checkWriterLog(evs []wev, ops map[string]opInfo, accepted map[string]bool, 
 	}
 	// E5 (second half): inside a forced step an undersized non-boundary batch must be the last cut of that step
 	for i, r := range removals {
-		if r.forced && r.n < maxCount && !r.boundary && sequential {
+		if r.forced && r.n < r.max && !r.boundary && sequential {
 			for _, later := range removals[i+1:] {
 				if later.stepIdx == r.stepIdx && later.n > 0 {
 					fail("E5: undersized batch was cut before the last cut of a timeout step")
